@@ -1,0 +1,38 @@
+//go:build verif
+
+package mutagen
+
+// Contracts for the version handshake (property C34). Comment-only file:
+// compiled only under the "verif" build tag, contains no code. The "//@"
+// lines are read by /verif/govc. lastread/rfailed/wcalls are ghost state of
+// the trusted io contracts.
+
+// venc(k) is the k-th byte of the 12-byte big-endian encoding of this
+// build's version.
+//@ spec be32(v, k) int = k == 0 ? v / 16777216 : (k == 1 ? (v / 65536) % 256 : (k == 2 ? (v / 256) % 256 : v % 256))
+//@ spec venc(k) int = k < 4 ? be32(VersionMajor, k) : (k < 8 ? be32(VersionMinor, k - 4) : be32(VersionPatch, k - 8))
+
+//@ func sendVersion
+//@   at call io.Writer.Write#1 assert[bytes] len(arg1) == 12 && forall k in 0..12 :: arg1[k] == venc(k)
+//@   ensures[once] wcalls[writer] == old(wcalls[writer]) + 1
+//@   ensures[all] result == nil ==> accepted[writer] == old(accepted[writer]) + 12
+
+//@ func receiveVersion
+//@   ensures[fail] (result3 != nil) == (rfailed && !old(rfailed)) || old(rfailed)
+//@   ensures[decode] result3 == nil ==> result0 == lastread[0] * 16777216 + lastread[1] * 65536 + lastread[2] * 256 + lastread[3]
+//@   ensures[decode] result3 == nil ==> result1 == lastread[4] * 16777216 + lastread[5] * 65536 + lastread[6] * 256 + lastread[7]
+//@   ensures[decode] result3 == nil ==> result2 == lastread[8] * 16777216 + lastread[9] * 65536 + lastread[10] * 256 + lastread[11]
+//@   ensures[bytes] result3 == nil ==> forall k in 0..12 :: 0 <= lastread[k] && lastread[k] <= 255
+//@   ensures[zero] result3 != nil ==> result0 == 0 && result1 == 0 && result2 == 0
+
+//@ func ClientVersionHandshake
+//@   requires !rfailed
+//@   ensures[match] result == nil ==> !rfailed && forall k in 0..12 :: lastread[k] == venc(k)
+//@   ensures[sent] result == nil ==> accepted[stream] == old(accepted[stream]) + 12
+//@   ensures[reject] !rfailed && (exists k in 0..12 :: lastread[k] != venc(k)) ==> result != nil
+
+//@ func ServerVersionHandshake
+//@   requires !rfailed
+//@   ensures[match] result == nil ==> !rfailed && forall k in 0..12 :: lastread[k] == venc(k)
+//@   ensures[sent] result == nil ==> accepted[stream] == old(accepted[stream]) + 12
+//@   ensures[reject] !rfailed && (exists k in 0..12 :: lastread[k] != venc(k)) ==> result != nil
